@@ -43,7 +43,10 @@ class time_limit:
 
     def __enter__(self):
         self.old = signal.signal(signal.SIGALRM, self._handler)
-        signal.setitimer(signal.ITIMER_REAL, self.seconds)
+        # re-armed every 0.1 s: an exception raised by the handler while the
+        # host runs a gc callback or a __del__ is swallowed ("Exception
+        # ignored in ..."), so a single shot could be lost
+        signal.setitimer(signal.ITIMER_REAL, self.seconds, 0.1)
         return self
 
     def __exit__(self, *exc):
